@@ -106,7 +106,7 @@ func VerifC08FilterShort() {
 // second stage produced.
 func VerifC08FilterTransform() {
 	n := verifParam("N", 4)
-	w, worker := buildWorker(vCfg{N: n, S: 2, M: 1, dlqSize: 0, dlqTh: 0, destSimple: true,
+	w, worker := buildWorker(vCfg{N: n, S: 2, M: verifParam("M", 1), dlqSize: 0, dlqTh: 0, destSimple: true,
 		stageKinds: [][]int{{vkSingle, vkFilter}, {vkSingle}}})
 	err := worker.doTask(context.Background(), worker.FirstTask, &Batch{}, newRunAckNacker(worker))
 	w.checkEnd(err)
